@@ -19,7 +19,7 @@ EXPLANATION = (
     "are derived (zBot, z_top, zMid) are consumed only by the enumerated groundwater routines; the initial-water-content "
     "interpolation takes its mid-depths from the base column dzsum. C18.d (typestate): the scalars fill_nan derives from the frame (zSoil, nComp) are read, in every "
     "function that receives the user's Soil, only on paths that pass fill_nan() since the entry and since every dz update, and such a "
-    "function returns with the Soil fresh - so the deepening loop tests the real depth of the profile. C18.e: add_layer's two branches compare a depth from the surface (thickness, resp. thickness + a value read from dzsum) with the compartment bottoms under the same rounding (sibling agreement + quantity kinds). C18.f: the per-layer initial water content is written into layer depth_layer[i] with the value computed for request i (same index), never by position. C18.g: the requested layers are completed over all layers of the profile before the per-layer fill (an unlisted layer takes the last request, it does not keep the 0 of the allocation). C18.h: with a water table the adjusted field capacity replaces the initial content elementwise, only where field capacity was requested. C18.i: the depth points of the 'Depth' method reach np.interp in ascending order (permuted by an argsort, values with the same permutation). NOT decided: arbitrary custom dz, pedotransfer "
+    "function returns with the Soil fresh - so the deepening loop tests the real depth of the profile. C18.e: add_layer's two branches compare a depth from the surface (thickness, resp. thickness + a value read from dzsum) with the compartment bottoms under the same rounding (sibling agreement + quantity kinds). C18.f: the per-layer initial water content is written into layer depth_layer[i] with the value computed for request i (same index), never by position. C18.g: the requested layers are completed over all layers of the profile before the per-layer fill (an unlisted layer takes the last request, it does not keep the 0 of the allocation). C18.h: with a water table the adjusted field capacity replaces the initial content elementwise, only where field capacity was requested. C18.i: the depth points of the 'Depth' method reach np.interp in ascending order (permuted by an argsort, values with the same permutation). C18.j: every column add_layer writes for a layer is forward-filled by fill_nan over the compartments below the specified layers. C18.k: the thickness column is stored as floats (the deepening adds 0.1 m to single cells). NOT decided: arbitrary custom dz, pedotransfer "
     "ranges, numeric interpolation of initial water content.")
 
 DERIVED_CONSUMERS_OK = {
@@ -547,6 +547,79 @@ def rule_f(chk, prog):
     chk.floor("C18.f", n, 1, "per-layer stores of the initial water content")
 
 
+def rule_k(chk, prog):
+    """C18.k (any compartment thickness list): the thickness column of the profile frame is stored as floats - the value assigned to
+    `profile.dz` in Soil.create_df is cast (`np.asarray(dz, dtype=float)`, `.astype(float)`, `np.array(.., dtype=float)`) - because the
+    profile-deepening loop adds 0.1 m to single cells of that column: on an integer column (dz=[1, 1]) pandas raises TypeError."""
+    soil = prog.cls("Soil")
+    cd = soil.methods.get("create_df")
+    if cd is None:
+        raise AnalysisError("Soil.create_df not found")
+    chk.fn(cd.key)
+    where = f"{cd.module}:{cd.qualname}"
+    n = 0
+    for a in walk_no_nested(cd.node):
+        if isinstance(a, ast.Assign) and isinstance(a.targets[0], ast.Attribute) and a.targets[0].attr == "dz":
+            n += 1
+            v = a.value
+            is_float = (isinstance(v, ast.Call) and any(k.arg == "dtype" and norm(k.value) in ("float", "np.float64", "'float64'", "'float'") for k in v.keywords)) or \
+                       (isinstance(v, ast.Call) and isinstance(v.func, ast.Attribute) and v.func.attr == "astype" and v.args and norm(v.args[0]) in ("float", "np.float64", "'float64'", "'float'"))
+            if is_float:
+                chk.ok("C18.k", where, norm(a), "thicknesses stored as floats")
+            else:
+                chk.violation("C18.k", where, norm(a), "the thickness column takes the dtype of the list the user gave: with integers (dz=[1, 1]) the deepening loop's `+= 0.1` on a "
+                              "cell raises TypeError (Invalid value for dtype int64)", loc=cd.loc(a))
+    chk.floor("C18.k", n, 1, "stores of the thickness column in create_df")
+
+
+def rule_j(chk, prog):
+    """C18.j (layers cover all compartments - with every property of the layer): add_layer writes the layer number and the layer's properties
+    into the compartments the layer covers; Soil.fill_nan extends the last layer over the compartments below the specified layers by a
+    forward fill. Every column add_layer writes under the layer mask must be forward-filled - the whole frame, or a column list that
+    contains them all (a list that leaves one out, e.g. the drainage coefficient `tau`, leaves NaN there)."""
+    soil = prog.cls("Soil")
+    al, fn = soil.methods.get("add_layer"), soil.methods.get("fill_nan")
+    if al is None or fn is None:
+        raise AnalysisError("Soil.add_layer / Soil.fill_nan not found")
+    chk.fn(al.key); chk.fn(fn.key)
+    written = set()
+    for a in walk_no_nested(al.node):
+        if isinstance(a, ast.Assign) and isinstance(a.targets[0], ast.Subscript) and isinstance(a.targets[0].value, ast.Attribute) and a.targets[0].value.attr == "loc" \
+                and isinstance(a.targets[0].slice, ast.Tuple) and len(a.targets[0].slice.elts) == 2:
+            c = a.targets[0].slice.elts[1]
+            if isinstance(c, ast.Constant) and isinstance(c.value, str):
+                written.add(c.value)
+            elif isinstance(c, ast.List):
+                written |= {e.value for e in c.elts if isinstance(e, ast.Constant)}
+    chk.floor("C18.j", len(written), 6, "per-layer columns written by add_layer")
+    where = f"{fn.module}:{fn.qualname}"
+    filled_all, filled = False, set()
+    lists = {a.targets[0].id: a.value for a in walk_no_nested(fn.node) if isinstance(a, ast.Assign) and isinstance(a.targets[0], ast.Name) and isinstance(a.value, ast.List)}
+    for c in walk_no_nested(fn.node):
+        if isinstance(c, ast.Call) and isinstance(c.func, ast.Attribute) and c.func.attr in ("ffill", "pad") or \
+                (isinstance(c, ast.Call) and isinstance(c.func, ast.Attribute) and c.func.attr == "fillna" and any(k.arg == "method" for k in c.keywords)):
+            recv = c.func.value
+            if isinstance(recv, ast.Attribute) and recv.attr == "profile":
+                filled_all = True
+            elif isinstance(recv, ast.Subscript):
+                sl = recv.slice
+                if isinstance(sl, ast.Name) and sl.id in lists:
+                    sl = lists[sl.id]
+                if isinstance(sl, ast.List):
+                    filled |= {e.value for e in sl.elts if isinstance(e, ast.Constant)}
+                elif isinstance(sl, ast.Constant):
+                    filled.add(sl.value)
+    construct = "fill_nan forward-fills what add_layer writes"
+    missing = sorted(written - filled) if not filled_all else []
+    if filled_all:
+        chk.ok("C18.j", where, construct, f"whole frame forward-filled ({len(written)} per-layer columns: {', '.join(sorted(written))})")
+    elif not missing:
+        chk.ok("C18.j", where, construct, f"forward-filled column list covers all {len(written)} per-layer columns")
+    else:
+        chk.violation("C18.j", where, construct, f"the forward fill leaves out {', '.join(missing)}: in the compartments below the specified layers (a profile longer than the "
+                      "layers, or deepened for the crop) that property stays NaN - NaN water contents once drainage reaches them", loc=fn.loc())
+
+
 def rule_g(chk, prog):
     """C18.g (every layer receives an initial water content): the per-layer branch fills an array allocated with zeros through per-layer
     selections, one request at a time; the list of requested layers it iterates over must have been completed over *all* layers of the
@@ -753,6 +826,8 @@ def run(chk, prog, tier):
     rule_f(chk, prog)
     rule_g(chk, prog)
     rule_h(chk, prog)
+    rule_j(chk, prog)
+    rule_k(chk, prog)
     from ._siblings import interp_sorted
     chk.floor("C18.i", interp_sorted(chk, prog, "C18.i", "read_model_initial_conditions"), 1, "interpolations of the initial water content")
     chk.assume("A-1")
